@@ -839,6 +839,67 @@ impl<'s> Semantics<'s> {
         Ok(())
     }
 
+    /// The operands of a bit test: the word which holds the selected bit, the
+    /// index of the bit inside that word and, for a bit string in memory, the
+    /// address of that word.
+    ///
+    /// A register base or an immediate offset select bit (offset modulo the
+    /// operand size) of the operand. A memory base with a register offset is
+    /// a bit string: the offset is a signed bit index relative to the
+    /// operand's address, and the word `offset div size` away is accessed.
+    fn bit_test_operands(
+        &self,
+        block: &mut Block,
+    ) -> Result<(Expression, Expression, Option<Expression>), Error> {
+        let detail = self.details()?;
+        let bits = detail.operands[0].size as usize * 8;
+
+        let mut offset = self.operand_load(block, &detail.operands[1])?;
+        if offset.bits() != bits {
+            offset = Expr::zext(bits, offset)?;
+        }
+        let index = Expr::and(offset.clone(), expr_const(bits as u64 - 1, bits))?;
+
+        if detail.operands[0].type_ == x86_op_type::X86_OP_MEM
+            && detail.operands[1].type_ == x86_op_type::X86_OP_REG
+        {
+            let address_bits = self.mode().bits();
+            let word = Expr::ashr(offset, expr_const(bits.trailing_zeros() as u64, bits))?;
+            let word = match bits.cmp(&address_bits) {
+                std::cmp::Ordering::Less => Expr::sext(address_bits, word)?,
+                std::cmp::Ordering::Greater => Expr::trun(address_bits, word)?,
+                std::cmp::Ordering::Equal => word,
+            };
+            let address = Expr::add(
+                self.mode()
+                    .operand_value(&detail.operands[0], self.instruction())?,
+                Expr::mul(word, expr_const((bits / 8) as u64, address_bits))?,
+            )?;
+            let base = self.temp(2, bits);
+            block.load(base.clone(), address.clone());
+            Ok((base.into(), index, Some(address)))
+        } else {
+            let base = self.operand_load(block, &detail.operands[0])?;
+            Ok((base, index, None))
+        }
+    }
+
+    /// Writes the word of a bit test back to where `bit_test_operands` took it from
+    fn bit_test_store(
+        &self,
+        block: &mut Block,
+        address: Option<Expression>,
+        value: Expression,
+    ) -> Result<(), Error> {
+        match address {
+            Some(address) => {
+                block.store(address, value);
+                Ok(())
+            }
+            None => self.operand_store(block, &self.details()?.operands[0], value),
+        }
+    }
+
     /*
         BT saves the value of the bit indicated by the base (first operand) and the
         bit offset (second operand) into the carry flag.
@@ -851,24 +912,14 @@ impl<'s> Semantics<'s> {
         0F BA /4 ib BT r/m32,imm8 3/6 Save bit in carry flag
     */
     pub fn bt(&self, control_flow_graph: &mut ControlFlowGraph) -> Result<(), Error> {
-        let detail = self.details()?;
-
         // create our head block
         let block_index = {
             let block = control_flow_graph.new_block()?;
 
             // get started
-            let base = self.operand_load(block, &detail.operands[0])?;
-            let mut offset = self.operand_load(block, &detail.operands[1])?;
+            let (base, offset, _) = self.bit_test_operands(block)?;
 
-            // let's ensure we have equal sorts
-            if offset.bits() != base.bits() {
-                let temp = self.temp(0, base.bits());
-                block.assign(temp.clone(), Expr::zext(base.bits(), offset.clone())?);
-                offset = temp.into();
-            }
-
-            let temp = self.temp(0, base.bits());
+            let temp = self.temp(1, base.bits());
             block.assign(temp.clone(), Expr::shr(base, offset)?);
             block.assign(scalar("CF", 1), Expr::trun(1, temp.into())?);
 
@@ -895,22 +946,12 @@ impl<'s> Semantics<'s> {
         0F BA /7 ib BTC r/m32,imm8 6/8 Save bit in carry flag and complement
     */
     pub fn btc(&self, control_flow_graph: &mut ControlFlowGraph) -> Result<(), Error> {
-        let detail = self.details()?;
-
         // create our head block
         let block_index = {
             let block = control_flow_graph.new_block()?;
 
             // get started
-            let base = self.operand_load(block, &detail.operands[0])?;
-            let mut offset = self.operand_load(block, &detail.operands[1])?;
-
-            // let's ensure we have equal sorts
-            if offset.bits() != base.bits() {
-                let temp = self.temp(0, base.bits());
-                block.assign(temp.clone(), Expr::zext(base.bits(), offset.clone())?);
-                offset = temp.into();
-            }
+            let (base, offset, address) = self.bit_test_operands(block)?;
 
             // this handles the assign to CF
             let temp = self.temp(1, base.bits());
@@ -919,7 +960,7 @@ impl<'s> Semantics<'s> {
 
             let expr = Expr::shl(expr_const(1, base.bits()), offset)?;
             let expr = Expr::xor(base, expr)?;
-            self.operand_store(block, &detail.operands[0], expr)?;
+            self.bit_test_store(block, address, expr)?;
 
             block.index()
         };
@@ -944,22 +985,12 @@ impl<'s> Semantics<'s> {
         0F BA /6 ib BTR r/m32,imm8 6/8 Save bit in carry flag and reset
     */
     pub fn btr(&self, control_flow_graph: &mut ControlFlowGraph) -> Result<(), Error> {
-        let detail = self.details()?;
-
         // create our head block
         let block_index = {
             let block = control_flow_graph.new_block()?;
 
             // get started
-            let base = self.operand_load(block, &detail.operands[0])?;
-            let mut offset = self.operand_load(block, &detail.operands[1])?;
-
-            // let's ensure we have equal sorts
-            if offset.bits() != base.bits() {
-                let temp = self.temp(0, base.bits());
-                block.assign(temp.clone(), Expr::zext(base.bits(), offset.clone())?);
-                offset = temp.into();
-            }
+            let (base, offset, address) = self.bit_test_operands(block)?;
 
             // this handles the assign to CF
             let temp = self.temp(1, base.bits());
@@ -969,8 +1000,7 @@ impl<'s> Semantics<'s> {
             let expr = Expr::shl(expr_const(1, base.bits()), offset)?;
             let expr = Expr::xor(expr, expr_const(0xffff_ffff_ffff_ffff, base.bits()))?;
             let expr = Expr::and(base, expr)?;
-
-            self.operand_store(block, &detail.operands[0], expr)?;
+            self.bit_test_store(block, address, expr)?;
 
             block.index()
         };
@@ -995,22 +1025,12 @@ impl<'s> Semantics<'s> {
         0F BA /5 ib BTS r/m32,imm8 6/8 Save bit in carry flag and set
     */
     pub fn bts(&self, control_flow_graph: &mut ControlFlowGraph) -> Result<(), Error> {
-        let detail = self.details()?;
-
         // create our head block
         let block_index = {
             let block = control_flow_graph.new_block()?;
 
             // get started
-            let base = self.operand_load(block, &detail.operands[0])?;
-            let mut offset = self.operand_load(block, &detail.operands[1])?;
-
-            // let's ensure we have equal sorts
-            if offset.bits() != base.bits() {
-                let temp = self.temp(0, base.bits());
-                block.assign(temp.clone(), Expr::zext(base.bits(), offset.clone())?);
-                offset = temp.into();
-            }
+            let (base, offset, address) = self.bit_test_operands(block)?;
 
             // this handles the assign to CF
             let temp = self.temp(1, base.bits());
@@ -1019,8 +1039,7 @@ impl<'s> Semantics<'s> {
 
             let expr = Expr::shl(expr_const(1, base.bits()), offset)?;
             let expr = Expr::or(base, expr)?;
-
-            self.operand_store(block, &detail.operands[0], expr)?;
+            self.bit_test_store(block, address, expr)?;
 
             block.index()
         };
